@@ -169,6 +169,30 @@ Definition astep (w : aw) (line : string) : aw * list string :=
       | Some c', Some argv, Some s => cmd_lines w s c' argv
       | _, _, _ => (w, ["BAD " +:+ line])
       end
+  | "WW" :: _ :: c1 :: n1 :: rest =>
+      (* two writers: the first parked between its handler and its log record, the second started meanwhile: a command and
+         its log record are one critical section, so the second waits; both are logged in the order they executed *)
+      match parse_int c1, parse_int n1, aw_live w with
+      | Some c1', Some n, Some s =>
+          let k := Z.to_nat n in
+          match unhex_all (firstn k rest), skipn k rest with
+          | Some argv1, c2 :: args2 =>
+              match parse_int c2, unhex_all args2 with
+              | Some c2', Some argv2 =>
+                  let w0 := w <| aw_images := false |> in
+                  let '(w1, l1) := cmd_lines w0 s c1' argv1 in
+                  match aw_live w1 with
+                  | Some s1 =>
+                      let '(w2, l2) := cmd_lines w1 s1 c2' argv2 in
+                      (w2 <| aw_images := aw_images w |>, "SCHED ww parked blocked" :: hd "" l1 :: l2)
+                  | None => (w, ["BAD " +:+ line])
+                  end
+              | _, _ => (w, ["BAD " +:+ line])
+              end
+          | _, _ => (w, ["BAD " +:+ line])
+          end
+      | _, _, _ => (w, ["BAD " +:+ line])
+      end
   | ["TORN"] =>
       let all := log_bytes w in
       let n := (length all - aw_before w)%nat in
